@@ -2,6 +2,7 @@ package main
 
 import (
 	"fmt"
+	"regexp"
 	"strings"
 
 	"verif/internal/engine"
@@ -32,8 +33,11 @@ var c11Fragments = []struct{ name, src string }{
 	{"case-when", "zqk = true ? 1 : \"s\"\ncase zqk\nwhen 1\n  zqr = 1\nwhen \"s\"\n  zqr = 2\nelse\n  zqr = nil\nend"},
 	// operator calls on union receivers, both variant orders (the result type is merged from two declarations)
 	{"union-operator", "zqo = true ? \"zz\" : 7\nzqo * 2\nzqi = true ? 7 : \"zz\"\nzqi * 2\nzqf = true ? 1.5 : 2\nzqf + 1"},
-	{"union-method", "zqo = true ? \"zz\" : [1]\nzqo.length\nzqo.first\nzqi = true ? {a: 1} : \"s\"\nzqi.size"},
+	{"union-method", "zqo = true ? \"zz\" : [1]\nzqo.length\nzqo.to_s\nzqi = true ? {a: 1} : \"s\"\nzqi.to_s\nzqi.inspect"},
 }
+
+// c11DefRe finds the names a program defines: `def name`, `def self.name`, `name =`, `|name|` / `|a, name|`.
+var c11DefRe = regexp.MustCompile(`(?m)\bdef\s+(?:self\.)?([a-z_][A-Za-z0-9_]*[?!]?)|^\s*([a-z_][A-Za-z0-9_]*)\s*=[^=]|\|\s*([a-z_][A-Za-z0-9_]*)\s*[,|]|,\s*([a-z_][A-Za-z0-9_]*)\s*\|`)
 
 // dropAndShift removes records on rows (k, k+n] and shifts later rows back by n.
 func dropAndShift(out, file string, k, n int) string {
@@ -203,6 +207,21 @@ func c11(x *ctx) {
 				for n := range userNames(b) {
 					if na[n] {
 						disjoint = false
+					}
+				}
+				// a name one program defines (method, variable, parameter) must not occur in the other at all, even
+				// when the configuration knows the name too (`"1".test` next to `def test`)
+				for _, pr := range [][2]gen.Prog{{a, b}, {b, a}} {
+					all := map[string]bool{}
+					for _, t := range gen.Tokenize(pr[1].Src) {
+						all[t.Text] = true
+					}
+					for _, m := range c11DefRe.FindAllStringSubmatch(pr[0].Src, -1) {
+						for _, g := range m[1:] {
+							if g != "" && all[g] {
+								disjoint = false
+							}
+						}
 					}
 				}
 				if !disjoint {
